@@ -14,6 +14,12 @@
 (*      evaluate_lazy, PipeFunc.__call__)   |                               *)
 (*   h.evaluate()  (again: _evaluated memo) | ReEvaluate / ReEvaluateFull   *)
 (*   with construct_dag() as dag: ...       | dag = TRUE ; Graph(g)         *)
+(*   a user function raises while h is      | LCallFail ; EvalRaise         *)
+(*     evaluated (the exception leaves      |   (eager twin: ECallFail ;    *)
+(*     evaluate(); h stays usable)          |    ERaise)                    *)
+(*   h.evaluate() after a failed one        | EvalBegin ; LCall* ; ...      *)
+(*     (a retry: what succeeded is kept,    |   (only what is not done yet) *)
+(*      what failed is invoked again)       |                               *)
 (*                                                                         *)
 (* Property C18: the deferred object evaluates to the eager result (both    *)
 (* are Eval of PipelineStatic: the eager call is PipelineCall!Return, the   *)
@@ -26,6 +32,20 @@
 (* As in PipelineCall any dependency-respecting order of invocations is a   *)
 (* behaviour: the recursion order of evaluate_lazy is not part of the       *)
 (* property.                                                                *)
+(*                                                                         *)
+(* Faults.  "However often evaluate() is called" includes the calls that    *)
+(* did not return: a user function may raise (fault plan flt/eflt: the next *)
+(* k invocations of a function raise, or every one does).  The eager call   *)
+(* then raises that exception and leaves nothing behind; so does evaluate() *)
+(* - the invocation that raised does NOT count as an evaluation of its node *)
+(* (LCallFail leaves `done` alone), no value is produced, and the deferred  *)
+(* object is as usable as before: a further evaluate() is again a FIRST     *)
+(* evaluate (EvalBegin), invokes exactly the needed functions that have not *)
+(* succeeded yet - the one that raised included - and either raises again   *)
+(* (the fault persists) or returns Eval, exactly like a further eager call. *)
+(* A node that raised is never handed out as "evaluated", neither to the    *)
+(* same handle nor to a later one that shares it through the construct_dag  *)
+(* block or the user cache (memo only ever holds completed invocations).    *)
 (*                                                                         *)
 (* Several calls inside ONE construct_dag() block (tests/test_lazy.py does  *)
 (* that) share the block's cache, so a later handle may reuse nodes of an   *)
@@ -50,17 +70,34 @@ VARIABLES lazy,    \* TRUE while a lazy call is being built / its deferred handl
           val,     \* what the last evaluate() returned (NoVal before the first one)
           graph,   \* the task graph last observed under construct_dag() (NoGraph if none)
           memo,    \* <<i, args>>: invocations made for EARLIER handles of the construct_dag() block that is still open
-          nh       \* number of earlier handles of the open block (0: no block is open besides the live handle's)
-lvars == <<lazy, dag, nev, count, val, graph, memo, nh>>
+          nh,      \* number of earlier handles of the open block (0: no block is open besides the live handle's)
+          flt,     \* fault plan of the lazy pipeline's user functions: flt[i] = k > 0: the next k invocations of d.funcs[i] raise,
+                   \*   -1: every invocation raises, 0: it works
+          eflt,    \* the same for the functions of the eager twin (separate function objects, separate plan)
+          nfail,   \* nfail[i] = invocations of d.funcs[i] since LBegin that raised (they are part of count[i])
+          nfe,     \* number of evaluate() calls on the handle that raised
+          bad      \* the function whose invocation just raised (phase = "failed"), 0 otherwise
+fvars == <<flt, eflt, nfail, nfe, bad>>
+lvars == <<lazy, dag, nev, count, val, graph, memo, nh, flt, eflt, nfail, nfe, bad>>
 allvars == <<cvars, lvars>>
 
 NoVal   == Atom("#noval")
 NoGraph == [nodes |-> {}, edges |-> {}]
 Zero(dd) == [i \in FIdx(dd) |-> 0]
+(* the fault plan a description starts with (optional field `faults`, one integer per function) *)
+Faults(dd) == IF "faults" \in DOMAIN dd THEN [i \in FIdx(dd) |-> dd.faults[i]] ELSE Zero(dd)
+Fails(f, i) == f[i] # 0
+(* a transient fault is used up by the invocation it breaks *)
+Spend(f, i) == IF f[i] > 0 THEN [f EXCEPT ![i] = @ - 1] ELSE f
+RECURSIVE SumTo(_, _)
+SumTo(f, n) == IF n = 0 THEN 0 ELSE f[n] + SumTo(f, n - 1)
+(* successful invocations of d.funcs[i] since LBegin *)
+Ran(i) == count[i] - nfail[i]
 
 LazyInit(desc) == /\ CallInit(desc)
                   /\ lazy = FALSE /\ dag = FALSE /\ nev = 0 /\ count = Zero(desc) /\ val = NoVal /\ graph = NoGraph
                   /\ memo = {} /\ nh = 0
+                  /\ flt = Faults(desc) /\ eflt = Faults(desc) /\ nfail = Zero(desc) /\ nfe = 0 /\ bad = 0
 
 ---------------------------------------------------------------------------
 (* The task graph.                                                                                           *)
@@ -187,6 +224,7 @@ ReferenceGraph(dd, k, o) == ReferenceGraphFor(dd, k, o, {}, FALSE)
 
 LReset  == /\ phase' = "idle" /\ out' = "" /\ kw' = <<>> /\ mode' = "call" /\ done' = {} /\ UNCHANGED d
            /\ lazy' = FALSE /\ dag' = FALSE /\ nev' = 0 /\ count' = Zero(d) /\ val' = NoVal /\ graph' = NoGraph
+           /\ nfail' = Zero(d) /\ nfe' = 0 /\ bad' = 0 /\ UNCHANGED <<flt, eflt>>       \* the functions keep their fault plans
 (* the handle is gone and so is the construct_dag() block, if any; what the pipeline's own cache holds stays *)
 Invoked == {<<i, ArgsOf(d, kw, i)>> : i \in done}
 LFinish == LReset /\ memo' = {x \in memo \cup Invoked : Cached(d, x[1])} /\ nh' = 0
@@ -195,7 +233,8 @@ LFinish == LReset /\ memo' = {x \in memo \cup Invoked : Cached(d, x[1])} /\ nh' 
 LBegin(o, k, m, g) == /\ phase = "idle" /\ ~lazy /\ (nh > 0 => g)
                       /\ phase' = "building" /\ out' = o /\ kw' = k /\ mode' = m /\ done' = {} /\ UNCHANGED d
                       /\ lazy' = TRUE /\ dag' = g /\ nev' = 0 /\ count' = Zero(d) /\ val' = NoVal /\ graph' = NoGraph
-                      /\ UNCHANGED <<memo, nh>>
+                      /\ nfail' = Zero(d) /\ nfe' = 0 /\ bad' = 0
+                      /\ UNCHANGED <<memo, nh, flt, eflt>>
 
 (* the call returns a deferred handle.  No Call step is enabled in phase "building": no user function runs.     *)
 (* Don't-care: inside a construct_dag() block that already served a handle (nh > 0), or on a pipeline with a   *)
@@ -212,7 +251,7 @@ BuildRaiseUnused         == lazy /\ phase = "building" /\ Surplus(d, kw, out) # 
 BuildRaiseMissing        == lazy /\ phase = "building" /\ ~Defined(d, kw, out) /\ LFinish
 BuildRaiseOutputSupplied == lazy /\ phase = "building" /\ PHas(kw, out) /\ LFinish
 
-(* needed functions whose identical invocation was already made for an earlier handle of the open block *)
+(* needed functions whose identical invocation was already made (and completed) for an earlier handle of the open block *)
 Reused  == {j \in Needed(d, kw, out) : <<j, ArgsOf(d, kw, j)>> \in memo}
 (* Call of PipelineCall, except that a dependency may also be satisfied by a reused node *)
 SharedCall(i, args) == /\ phase = "running"
@@ -228,70 +267,113 @@ MustRun  == Visited(d, kw, out, Reused, mode = "full") \ Reused
 (* everything that has to run ran, nothing but needed functions ran (memo = {}: done = Needed) *)
 Complete == done \subseteq Needed(d, kw, out) /\ MustRun \subseteq done
 
-(* first evaluate(): the Call steps of PipelineCall (needed, not yet done, after its dependencies, resolved arguments) *)
+(* evaluate() while none has returned yet (the first one, or one after evaluate() calls that raised): the Call steps of *)
+(* PipelineCall (needed, not yet done, after its dependencies, resolved arguments)                                      *)
 EvalBegin == /\ lazy /\ phase = "built" /\ nev = 0
              /\ phase' = "running"
              /\ UNCHANGED <<d, out, kw, mode, done, lvars>>
-LCall(i, args) == /\ lazy
+(* the invocation completes (the function's fault plan lets it) *)
+LCall(i, args) == /\ lazy /\ ~Fails(flt, i)
                   /\ IF memo = {} THEN Call(i, args) ELSE SharedCall(i, args)
                   /\ count' = [count EXCEPT ![i] = @ + 1]
-                  /\ UNCHANGED <<lazy, dag, nev, val, graph, memo, nh>>
+                  /\ UNCHANGED <<lazy, dag, nev, val, graph, memo, nh, fvars>>
+(* The invocation raises.  It IS an invocation (made when LCall could be made: needed, not done, after its             *)
+(* dependencies, with the resolved arguments) and it is counted, but it completes nothing: `done` stays, no other     *)
+(* function is invoked any more by this evaluate() (phase "failed": no Call step), which ends by raising (EvalRaise). *)
+(* lz: on the lazy pipeline (dependencies may be reused nodes) / on the eager twin.                                     *)
+Ready(i, args, lz) == /\ phase = "running"
+                      /\ i \in Needed(d, kw, out) \ done
+                      /\ DirectDeps(d, kw, i) \subseteq done \cup (IF lz THEN Reused ELSE {})
+                      /\ \A p \in ParamsOf(d, i) : Source(d, kw, i, p) # "missing"
+                      /\ args = ArgsOf(d, kw, i)
+LCallFail(i, args) == /\ lazy /\ Fails(flt, i)
+                      /\ Ready(i, args, TRUE)
+                      /\ phase' = "failed" /\ bad' = i
+                      /\ count' = [count EXCEPT ![i] = @ + 1] /\ nfail' = [nfail EXCEPT ![i] = @ + 1]
+                      /\ flt' = Spend(flt, i)
+                      /\ UNCHANGED <<d, out, kw, mode, done, lazy, dag, nev, val, graph, memo, nh, eflt, nfe>>
+(* evaluate() raises the exception of function i = bad.  The handle is back where it was before this evaluate(),       *)
+(* except for the nodes that completed: no value (nev, val unchanged), nothing "evaluated" that did not complete.      *)
+EvalRaise(i) == /\ lazy /\ phase = "failed" /\ i = bad
+                /\ phase' = "built" /\ bad' = 0 /\ nfe' = nfe + 1
+                /\ UNCHANGED <<d, out, kw, mode, done, lazy, dag, nev, count, val, graph, memo, nh, flt, eflt, nfail>>
 FullValue(dd, k, o) == {<<n, ValOf(dd, k, n)>> : n \in FullOutputNames(dd, k, o)}
 EvalReturn(v) == /\ lazy /\ phase = "running" /\ mode = "call"
                  /\ Complete                                   \* memo = {}: done = Needed
                  /\ v = Eval(d, kw, out)
                  /\ phase' = "built" /\ nev' = 1 /\ val' = v
-                 /\ UNCHANGED <<d, out, kw, mode, done, lazy, dag, count, graph, memo, nh>>
+                 /\ UNCHANGED <<d, out, kw, mode, done, lazy, dag, count, graph, memo, nh, fvars>>
 (* full_output: a dictionary of deferred objects, evaluated together (evaluate_lazy on the dictionary) *)
 EvalReturnFull(pairs) == /\ lazy /\ phase = "running" /\ mode = "full"
                          /\ Complete
                          /\ pairs = FullValue(d, kw, out)
                          /\ phase' = "built" /\ nev' = 1 /\ val' = Eval(d, kw, out)
-                         /\ UNCHANGED <<d, out, kw, mode, done, lazy, dag, count, graph, memo, nh>>
-(* any later evaluate(): one step, never passing through "running": no Call at all, the same value *)
+                         /\ UNCHANGED <<d, out, kw, mode, done, lazy, dag, count, graph, memo, nh, fvars>>
+(* any evaluate() after one that returned: one step, never passing through "running": no Call at all, the same value *)
 ReEvaluate(v) == /\ lazy /\ phase = "built" /\ nev >= 1 /\ mode = "call"
                  /\ v = Eval(d, kw, out)
                  /\ nev' = nev + 1 /\ val' = v
-                 /\ UNCHANGED <<cvars, lazy, dag, count, graph, memo, nh>>
+                 /\ UNCHANGED <<cvars, lazy, dag, count, graph, memo, nh, fvars>>
 ReEvaluateFull(pairs) == /\ lazy /\ phase = "built" /\ nev >= 1 /\ mode = "full"
                          /\ pairs = FullValue(d, kw, out)
                          /\ nev' = nev + 1
-                         /\ UNCHANGED <<cvars, lazy, dag, count, val, graph, memo, nh>>
+                         /\ UNCHANGED <<cvars, lazy, dag, count, val, graph, memo, nh, fvars>>
 (* the graph recorded under construct_dag(), observed at any time after the (first) handle of the block exists; *)
 (* memo = {}: TaskGraphOK.  Nodes cached by an earlier handle (built before the block) may take part           *)
 Graph(g) == /\ lazy /\ dag /\ phase = "built" /\ nh = 0
             /\ TaskGraphOKReuse(d, kw, out, g, memo, mode = "full")
             /\ graph' = g
-            /\ UNCHANGED <<cvars, lazy, dag, nev, count, val, memo, nh>>
-(* the handle is dropped (and its construct_dag() block left) *)
+            /\ UNCHANGED <<cvars, lazy, dag, nev, count, val, memo, nh, fvars>>
+(* the handle is dropped (and its construct_dag() block left), evaluated or not, also after evaluate() calls that raised *)
 LEnd == lazy /\ phase = "built" /\ LFinish
-(* the handle is dropped but its construct_dag() block stays open for a further call *)
+(* the handle is dropped but its construct_dag() block stays open for a further call; the block keeps the nodes that     *)
+(* completed (Invoked: i \in done), never one whose invocation raised                                                     *)
 LDropKeep == /\ lazy /\ dag /\ phase = "built"
              /\ LReset
              /\ memo' = memo \cup Invoked /\ nh' = nh + 1
 (* the block is left without a live handle *)
 CloseBlock == /\ ~lazy /\ phase = "idle" /\ nh > 0
               /\ nh' = 0 /\ memo' = {x \in memo : Cached(d, x[1])}
-              /\ UNCHANGED <<cvars, lazy, dag, nev, count, val, graph>>
+              /\ UNCHANGED <<cvars, lazy, dag, nev, count, val, graph, fvars>>
 
 (* eager calls (PipelineCall) while no handle is alive and no block is open *)
 Eager(A) == ~lazy /\ nh = 0 /\ A /\ UNCHANGED lvars
+(* the eager twin under its fault plan: an invocation completes (ECall) or raises (ECallFail), and then the call raises *)
+(* that exception (ERaise) and leaves nothing behind: a further eager call starts from scratch (PipelineCall!Begin).    *)
+ECall(i, args)     == ~Fails(eflt, i) /\ Eager(Call(i, args))
+ECallFail(i, args) == /\ ~lazy /\ nh = 0 /\ Fails(eflt, i)
+                      /\ Ready(i, args, FALSE)
+                      /\ phase' = "failed" /\ bad' = i /\ eflt' = Spend(eflt, i)
+                      /\ UNCHANGED <<d, out, kw, mode, done, lazy, dag, nev, count, val, graph, memo, nh, flt, nfail, nfe>>
+ERaise(i)          == /\ ~lazy /\ phase = "failed" /\ i = bad
+                      /\ Finish /\ bad' = 0
+                      /\ UNCHANGED <<lazy, dag, nev, count, val, graph, memo, nh, flt, eflt, nfail, nfe>>
 
 ---------------------------------------------------------------------------
 (* Invariants (C18) *)
-NothingBeforeEvaluate == (lazy /\ (phase = "building" \/ (phase = "built" /\ nev = 0))) =>
+NothingBeforeEvaluate == (lazy /\ (phase = "building" \/ (phase = "built" /\ nev = 0 /\ nfe = 0))) =>
                              (done = {} /\ \A i \in FIdx(d) : count[i] = 0)
-AtMostOncePerNode     == \A i \in FIdx(d) : count[i] <= 1
+(* at most one COMPLETED invocation per node; an invocation that raised ended the evaluate() it was made for *)
+AtMostOncePerNode     == \A i \in FIdx(d) : Ran(i) <= 1
 (* exactly once for every needed function, however often evaluate() was called (reused nodes of a shared block: don't-care) *)
 ExactlyOnceNeeded     == (lazy /\ nev >= 1) => \A i \in FIdx(d) :
                              /\ (i \notin Needed(d, kw, out) => count[i] = 0)
-                             /\ (i \in MustRun => count[i] = 1)
-CountIsDone           == lazy => \A i \in FIdx(d) : count[i] = IF i \in done THEN 1 ELSE 0
+                             /\ (i \in MustRun => Ran(i) = 1)
+CountIsDone           == lazy => \A i \in FIdx(d) : Ran(i) = IF i \in done THEN 1 ELSE 0
 ValueIsEval           == (lazy /\ nev >= 1) => val = Eval(d, kw, out)
+(* every invocation that raised ended exactly one evaluate(): no function is invoked after a failure within the same      *)
+(* evaluate(), and an evaluate() raises only because an invocation did                                                    *)
+FailuresAccounted     == lazy => SumTo(nfail, NF(d)) = nfe + (IF phase = "failed" THEN 1 ELSE 0)
+(* evaluate() calls that raised leave no value behind, and a value is there only when everything that had to run completed *)
+NoValueFromFailure    == /\ (lazy /\ nev = 0) => val = NoVal
+                         /\ (lazy /\ nev >= 1) => (MustRun \subseteq done /\ \A i \in MustRun : flt[i] = 0)
 GraphIsOK             == (lazy /\ graph # NoGraph) => (dag /\ nh = 0 /\ TaskGraphOKReuse(d, kw, out, graph, memo, mode = "full"))
-LazyTypeOK            == /\ phase \in {"idle", "building", "built", "running"}
-                         /\ lazy \in BOOLEAN /\ dag \in BOOLEAN /\ nev \in Nat /\ nh \in Nat
-                         /\ (~lazy => (phase \in {"idle", "running"} /\ ~dag /\ nev = 0 /\ val = NoVal /\ graph = NoGraph))
+LazyTypeOK            == /\ phase \in {"idle", "building", "built", "running", "failed"}
+                         /\ lazy \in BOOLEAN /\ dag \in BOOLEAN /\ nev \in Nat /\ nh \in Nat /\ nfe \in Nat
+                         /\ (~lazy => (phase \in {"idle", "running", "failed"} /\ ~dag /\ nev = 0 /\ val = NoVal /\ graph = NoGraph
+                                       /\ nfe = 0 /\ nfail = Zero(d)))
                          /\ ((nh = 0 /\ ~UserCache(d)) => memo = {}) /\ ((lazy /\ nh > 0) => dag)
                          /\ ((~lazy /\ nh = 0) => \A x \in memo : Cached(d, x[1]))
+                         /\ (phase = "failed" <=> bad # 0) /\ bad \in 0..NF(d)
+                         /\ \A i \in FIdx(d) : flt[i] >= -1 /\ eflt[i] >= -1 /\ nfail[i] \in Nat /\ nfail[i] <= count[i]
 =============================================================================
